@@ -894,6 +894,9 @@ class HInterp:
                 raise HUndecided("cast `%s`" % unparse(e))
             if d == "len" and len(e.args) == 1 and isinstance(self.ev(e.args[0], p), BytesV) and self.ev(e.args[0], p).kind == "key":
                 return leaf("len", 63)
+            if d == "len" and len(e.args) == 1 and isinstance(self.ev(e.args[0], p), BytesV) and self.ev(e.args[0], p).kind == "tail" \
+                    and self.case is not None:
+                return C(self.case[0])          # the tail holds len mod B bytes: the residue of the case under analysis
             if d == "len" and len(e.args) == 1 and isinstance(self.ev(e.args[0], p), BlocksV):
                 return self.binop(ast.FloorDiv(), leaf("len", 63), C(self.B))      # the array of whole blocks has len // B elements
             if d in ("np.frombuffer", "numpy.frombuffer") and len(e.args) == 2:
